@@ -8,6 +8,7 @@ import VsbModel.Model.Metadata
 import VsbModel.Model.Verify
 import VsbModel.Model.Filter
 import VsbModel.Model.Walk
+import VsbModel.Model.Config
 
 /-!
 Line-protocol driver for the executable models: one request per line `<op> <json>`, one JSON
@@ -408,6 +409,56 @@ def opWalk (j : Json) : Except String Json := do
   pure (Json.mkObj [("evs", Json.arr (evs.map evJsonW).toArray),
     ("result", match res with | some true => "ok" | some false => "errors" | none => "aborted")])
 
+/-! ## cfgload / cfgpath -/
+open Vsb.Config in
+partial def parseV (j : Json) : Except String V := do
+  match j with
+  | .null => pure .null
+  | j =>
+    match j.getObjVal? "s" with
+    | .ok v => do pure (.str (← v.getStr?))
+    | .error _ =>
+    match j.getObjVal? "n" with
+    | .ok v => do pure (.num (← v.getInt?))
+    | .error _ =>
+    match j.getObjVal? "b" with
+    | .ok v => do pure (.bool (← v.getBool?))
+    | .error _ =>
+    match j.getObjVal? "l" with
+    | .ok v => do pure (.list (← (← v.getArr?).toList.mapM parseV))
+    | .error _ =>
+    match j.getObjVal? "o" with
+    | .ok v => do
+      let fs ← (← v.getArr?).toList.mapM (fun kv => do
+        let a ← kv.getArr?
+        match a.toList with
+        | [k, x] => pure ((← k.getStr?), (← parseV x))
+        | _ => throw "pair")
+      pure (.obj fs)
+    | .error _ => throw "value"
+
+open Vsb.Config Vsb.Filter Vsb.Verify in
+def opCfgload (j : Json) : Except String Json := do
+  let doc ← parseV (← j.getObjVal? "doc")
+  let home ← (← j.getObjVal? "home").getStr?
+  let filterOk : String → Bool := fun s => match parseSpec s.toList with | .ok _ => true | .error _ => false
+  let durationOk : String → Bool := fun s => (parseDuration s).isSome
+  match load home filterOk durationOk doc with
+  | .error _ => pure (Json.mkObj [("result", "rejected")])
+  | .ok c => pure (Json.mkObj [("result", "accepted"),
+      ("backups", Json.arr (c.backups.map (fun b => Json.mkObj [("name", b.name), ("path", b.path),
+        ("upload_path", match b.upload with | some u => Json.str u.path | none => Json.null)])).toArray),
+      ("metrics", match c.metrics with | some m => Json.str m | none => Json.null)])
+
+open Vsb.Config in
+def opCfgpath (j : Json) : Except String Json := do
+  let p ← (← j.getObjVal? "path").getStr?
+  let home ← (← j.getObjVal? "home").getStr?
+  let loc := boolField j "local" true
+  match (if loc then normalizeLocal home p else normalizePath p) with
+  | some r => pure (Json.str r)
+  | none => pure Json.null
+
 def dispatch (op : String) (j : Json) : Except String Json :=
   match op with
   | "split" => opSplit j
@@ -419,6 +470,8 @@ def dispatch (op : String) (j : Json) : Except String Json :=
   | "dedup" => opDedup j
   | "filter" => opFilter j
   | "walk" => opWalk j
+  | "cfgload" => opCfgload j
+  | "cfgpath" => opCfgpath j
   | "verify" => opVerify j
   | "age" => opAge j
   | "duration" => opDuration j
